@@ -92,7 +92,6 @@ DETECT = {
     "C09-F": ("C09", ["C09"], ""),
     "C11-E": ("C11", ["C11"], ""),
     "C11-F": ("C11", ["C11"], "escaped at first: needed a map function that raises queue.Empty itself (added)"),
-    "C12-E": ("C12", ["C12"], ""),
     "C12-F": ("C12", ["C12"], ""),
     "C13-E": ("C13", ["C13"], ""),
     "C13-F": ("C13", ["C13", "C08"], "same change as C08-E, found independently"),
